@@ -4,8 +4,10 @@ byte-level mutations of them.
 """
 METHODS = ["GET", "HEAD", "PUT", "PATCH", "POST", "DELETE", "OPTIONS", "TRACE", "CONNECT"]
 URLS = ["/", "/a/b?x=1&y=2", "*", "http://h.example:8080/p?q", "/%7Euser/x#frag", "/\xe9t\xe9"]
-HNAMES = ["Host", "X-Foo", "accept", "CONTENT-TYPE", "X-Bar-Baz", "Cookie", "x-\xc9"]
-HVALS = ["h.example", "a, b;q=0.5", "text/plain; charset=utf-8", "1", "x:y: z", "\xe9\xff", ""]
+HNAMES = ["Host", "X-Foo", "accept", "CONTENT-TYPE", "X-Bar-Baz", "Cookie", "x-\xc9", "Connection", "connection",
+          "Keep-Alive", "Proxy-Connection"]
+HVALS = ["h.example", "a, b;q=0.5", "text/plain; charset=utf-8", "1", "x:y: z", "\xe9\xff", "", "close", "Keep-Alive",
+         "keep-alive, Upgrade", "CLOSE"]
 COLONS = [": ", ":", ":  ", " : ", ":\t"]
 REASONS = ["OK", "Not Found", "No Content", "Moved  Permanently", ""]
 
